@@ -116,7 +116,11 @@ template <class Gr> static void dumpUndObs(std::ostream &o, const Gr &g) {
     o << "G deg2: " << eachGuard(n, [&](size_t i) { return std::to_string(g.getDegree(i, true)); })
       << " | deg1: " << eachGuard(n, [&](size_t i) { return std::to_string(g.getDegree(i, false)); })
       << " | degs2: " << guard([&] { return joinSeq(g.getDegrees(true)); })
-      << " | degs1: " << guard([&] { return joinSeq(g.getDegrees(false)); }) << "\n";
+      << " | degs1: " << guard([&] { return joinSeq(g.getDegrees(false)); })
+      // the same observers with the flag left out (default argument: self-loops counted twice)
+      << " | degd: " << eachGuard(n, [&](size_t i) { return std::to_string(g.getDegree(i)); })
+      << " | degsd: " << guard([&] { return joinSeq(g.getDegrees()); })
+      << " | Md=M2: " << guard([&] { return std::string(g.getAdjacencyMatrix() == g.getAdjacencyMatrix(true) ? "1" : "0"); }) << "\n";
     o << "M2 " << guard([&] { return showMatrix(g.getAdjacencyMatrix(true)); }) << "\n";
     o << "M1 " << guard([&] { return showMatrix(g.getAdjacencyMatrix(false)); }) << "\n";
 }
@@ -234,8 +238,8 @@ template <class L, bool UND> struct GrSlot : SlotBase {
         VertexIndex i, j; L lab; bool f;
         if (a.size() != 4 || !pv(a[0], i) || !pv(a[1], j) || !LabTok<L>::parse(a[2], lab) || !pf(a[3], f)) return false;
         out = guard([&] {
-            if (LK<L>::labelled) g.addReciprocalEdge(i, j, lab, f);
-            else g.addReciprocalEdge(i, j, f);
+            if (LK<L>::labelled) { if (g_dflt) g.addReciprocalEdge(i, j, lab); else g.addReciprocalEdge(i, j, lab, f); }
+            else { if (g_dflt) g.addReciprocalEdge(i, j); else g.addReciprocalEdge(i, j, f); }
             return std::string("ok");
         });
         return true;
@@ -252,8 +256,8 @@ template <class L, bool UND> struct GrSlot : SlotBase {
         if (verb == "addEdge") {
             if (a.size() != 4 || !pv(a[0], i) || !pv(a[1], j) || !LabTok<L>::parse(a[2], lab) || !pf(a[3], f)) return false;
             out = guard([&] {
-                if (LK<L>::labelled) g.addEdge(i, j, lab, f);
-                else g.addEdge(i, j, f);
+                if (LK<L>::labelled) { if (g_dflt) g.addEdge(i, j, lab); else g.addEdge(i, j, lab, f); }
+                else { if (g_dflt) g.addEdge(i, j); else g.addEdge(i, j, f); }
                 return std::string("ok");
             });
             return true;
@@ -261,7 +265,7 @@ template <class L, bool UND> struct GrSlot : SlotBase {
         if (verb == "addReciprocalEdge") return recip(a, out);
         if (verb == "setEdgeLabel") {
             if (a.size() != 4 || !pv(a[0], i) || !pv(a[1], j) || !LabTok<L>::parse(a[2], lab) || !pf(a[3], f)) return false;
-            out = guard([&] { g.setEdgeLabel(i, j, lab, f); return std::string("ok"); });
+            out = guard([&] { if (g_dflt) g.setEdgeLabel(i, j, lab); else g.setEdgeLabel(i, j, lab, f); return std::string("ok"); });
             return true;
         }
         if (verb == "removeEdge") {
@@ -287,7 +291,7 @@ template <class L, bool UND> struct GrSlot : SlotBase {
     }
     template <bool U = UND> typename std::enable_if<U, bool>::type degQ(const std::string &name, const Args &a, std::string &out) {
         VertexIndex v; bool t;
-        if (name == "getDegree" && a.size() == 2 && pv(a[0], v) && pf(a[1], t)) { out = guard([&] { return std::to_string(g.getDegree(v, t)); }); return true; }
+        if (name == "getDegree" && a.size() == 2 && pv(a[0], v) && pf(a[1], t)) { const bool df = g_dflt; out = guard([&] { return std::to_string(df ? g.getDegree(v) : g.getDegree(v, t)); }); return true; }
         if (name == "getNeighbours" && a.size() == 1 && pv(a[0], v)) { out = guard([&] { return joinSeq(g.getNeighbours(v)); }); return true; }
         return false;
     }
@@ -295,7 +299,7 @@ template <class L, bool UND> struct GrSlot : SlotBase {
         VertexIndex i, j; long long l; bool t;
         if (name == "hasEdge" && a.size() == 2 && pv(a[0], i) && pv(a[1], j)) { out = guard([&] { return std::string(g.hasEdge(i, j) ? "1" : "0"); }); return true; }
         { L lab; if (name == "hasEdgeL" && a.size() == 3 && pv(a[0], i) && pv(a[1], j) && LabTok<L>::parse(a[2], lab)) { out = guard([&] { return std::string(g.hasEdge(i, j, lab) ? "1" : "0"); }); return true; } }
-        if (name == "getEdgeLabel" && a.size() == 3 && pv(a[0], i) && pv(a[1], j) && pf(a[2], t)) { out = guard([&] { return LK<L>::show(g.getEdgeLabel(i, j, t)); }); return true; }
+        if (name == "getEdgeLabel" && a.size() == 3 && pv(a[0], i) && pv(a[1], j) && pf(a[2], t)) { const bool df = g_dflt; out = guard([&] { return LK<L>::show(df ? g.getEdgeLabel(i, j) : g.getEdgeLabel(i, j, t)); }); return true; }
         if (name == "getOutNeighbours" && a.size() == 1 && pv(a[0], i)) { out = guard([&] { return joinSeq(g.getOutNeighbours(i)); }); return true; }
         return degQ(name, a, out);
     }
@@ -402,11 +406,11 @@ template <bool UND> struct MgSlot : SlotBase {
         VertexIndex i, j; unsigned k; bool f;
         if (verb == "addReciprocalEdge") {
             if (a.size() != 3 || !pv(a[0], i) || !pv(a[1], j) || !pf(a[2], f)) return false;
-            out = guard([&] { g.addReciprocalEdge(i, j, f); return std::string("ok"); });
+            out = guard([&] { if (g_dflt) g.addReciprocalEdge(i, j); else g.addReciprocalEdge(i, j, f); return std::string("ok"); });
             return true;
         }
         if (a.size() != 4 || !pv(a[0], i) || !pv(a[1], j) || !pv(a[2], k) || !pf(a[3], f)) return false;
-        out = guard([&] { g.addReciprocalMultiedge(i, j, k, f); return std::string("ok"); });
+        out = guard([&] { if (g_dflt) g.addReciprocalMultiedge(i, j, k); else g.addReciprocalMultiedge(i, j, k, f); return std::string("ok"); });
         return true;
     }
     template <bool U = UND> typename std::enable_if<U, bool>::type recip(const std::string &, const Args &, std::string &) { return false; }
@@ -420,12 +424,12 @@ template <bool UND> struct MgSlot : SlotBase {
         }
         if (verb == "addEdge") {
             if (a.size() != 3 || !pv(a[0], i) || !pv(a[1], j) || !pf(a[2], f)) return false;
-            out = guard([&] { g.addEdge(i, j, f); return std::string("ok"); });
+            out = guard([&] { if (g_dflt) g.addEdge(i, j); else g.addEdge(i, j, f); return std::string("ok"); });
             return true;
         }
         if (verb == "addMultiedge") {
             if (a.size() != 4 || !pv(a[0], i) || !pv(a[1], j) || !pv(a[2], k) || !pf(a[3], f)) return false;
-            out = guard([&] { g.addMultiedge(i, j, k, f); return std::string("ok"); });
+            out = guard([&] { if (g_dflt) g.addMultiedge(i, j, k); else g.addMultiedge(i, j, k, f); return std::string("ok"); });
             return true;
         }
         if (verb == "addReciprocalEdge" || verb == "addReciprocalMultiedge") return recip(verb, a, out);
@@ -462,7 +466,7 @@ template <bool UND> struct MgSlot : SlotBase {
     }
     template <bool U = UND> typename std::enable_if<U, bool>::type degQ(const std::string &name, const Args &a, std::string &out) {
         VertexIndex v; bool t;
-        if (name == "getDegree" && a.size() == 2 && pv(a[0], v) && pf(a[1], t)) { out = guard([&] { return std::to_string(g.getDegree(v, t)); }); return true; }
+        if (name == "getDegree" && a.size() == 2 && pv(a[0], v) && pf(a[1], t)) { const bool df = g_dflt; out = guard([&] { return std::to_string(df ? g.getDegree(v) : g.getDegree(v, t)); }); return true; }
         return false;
     }
     bool query(const std::string &name, const Args &a, std::string &out) override {
@@ -511,14 +515,14 @@ template <bool UND> struct WgSlot : SlotBase {
     void dump(std::ostream &o, int s) override {
         if (g_skipDump) return;
         o << "D " << s << " " << cls() << " size=" << g.getSize() << " en=" << g.getEdgeNumber()
-          << " tot=" << showQuarterLD(g.getTotalWeight()) << "\n";
+          << " tot=" << showW(g.getTotalWeight()) << "\n";
         dumpBase(o, g);
         size_t n = g.getSize();
         for (size_t i = 0; i < n; ++i) {
             o << "W " << i << ":";
             for (size_t j = 0; j < n; ++j)
-                o << " " << guard([&] { return showQuarter(g.getEdgeWeight(i, j, true)); }) << "/"
-                  << guard([&] { return showQuarter(g.getEdgeWeight(i, j, false)); });
+                o << " " << guard([&] { return showW(g.getEdgeWeight(i, j, true)); }) << "/"
+                  << guard([&] { return showW(g.getEdgeWeight(i, j, false)); });
             o << "\n";
         }
         o << "WM " << guard([&] { return showWMatrix(g.getWeightMatrix()); }) << "\n";
@@ -544,7 +548,7 @@ template <bool UND> struct WgSlot : SlotBase {
         }
         if (verb == "addEdge") {
             if (a.size() != 4 || !pv(a[0], i) || !pv(a[1], j) || !pw(a[2], w) || !pf(a[3], f)) return false;
-            out = guard([&] { g.addEdge(i, j, (double)(w / 4.0L * g_wscale), f); return std::string("ok"); });
+            out = guard([&] { if (g_dflt) g.addEdge(i, j, (double)(w / 4.0L * g_wscale)); else g.addEdge(i, j, (double)(w / 4.0L * g_wscale), f); return std::string("ok"); });
             return true;
         }
         if (verb == "addReciprocalEdge") return recip(a, out);
@@ -576,13 +580,14 @@ template <bool UND> struct WgSlot : SlotBase {
     }
     template <bool U = UND> typename std::enable_if<U, bool>::type degQ(const std::string &name, const Args &a, std::string &out) {
         VertexIndex v; bool t;
-        if (name == "getDegree" && a.size() == 2 && pv(a[0], v) && pf(a[1], t)) { out = guard([&] { return std::to_string(g.getDegree(v, t)); }); return true; }
+        if (name == "getDegree" && a.size() == 2 && pv(a[0], v) && pf(a[1], t)) { const bool df = g_dflt; out = guard([&] { return std::to_string(df ? g.getDegree(v) : g.getDegree(v, t)); }); return true; }
         return false;
     }
     bool query(const std::string &name, const Args &a, std::string &out) override {
         VertexIndex i, j; bool t;
         if (name == "hasEdge" && a.size() == 2 && pv(a[0], i) && pv(a[1], j)) { out = guard([&] { return std::string(g.hasEdge(i, j) ? "1" : "0"); }); return true; }
-        if (name == "getEdgeWeight" && a.size() == 3 && pv(a[0], i) && pv(a[1], j) && pf(a[2], t)) { out = guard([&] { return showQuarter(g.getEdgeWeight(i, j, t)); }); return true; }
+        if (name == "getEdgeWeight" && a.size() == 3 && pv(a[0], i) && pv(a[1], j) && a[2] == "d") { out = guard([&] { return showW(g.getEdgeWeight(i, j)); }); return true; }
+        if (name == "getEdgeWeight" && a.size() == 3 && pv(a[0], i) && pv(a[1], j) && pf(a[2], t)) { out = guard([&] { return showW(g.getEdgeWeight(i, j, t)); }); return true; }
         if (name == "getOutNeighbours" && a.size() == 1 && pv(a[0], i)) { out = guard([&] { return joinSeq(g.getOutNeighbours(i)); }); return true; }
         return degQ(name, a, out);
     }
@@ -933,6 +938,27 @@ int main(int argc, char **argv) {
             if (pi(w[1], a) && ps(w[4], n)) {
                 SlotBase *s = newSlot(w[2], w[3], n);
                 if (s) { slots[a].reset(s); out << "R ok\n"; s->dump(out, a); ok = true; }
+            }
+        } else if (verb == "chainpath" && w.size() == 3 && (w[1] == "dir" || w[1] == "und")) {
+            // a path graph 0-1-…-(n-1) far longer than any model-side history: the searches and the path
+            // reconstruction must cope with geodesics of that many hops (no recursion on the hop count)
+            size_t n;
+            if (ps(w[2], n) && n >= 1 && n <= 5000000) {
+                auto run = [&](auto g) {
+                    for (size_t i = 0; i + 1 < n; ++i) g.addEdge(i, i + 1);
+                    auto p = algorithms::findGeodesics(g, 0, n - 1);
+                    // (the all-paths machine copies its path list at every step: quadratic in the hop count by design,
+                    //  so it is only run on the short chains)
+                    auto ps_ = n <= 2000 ? algorithms::findAllGeodesics(g, 0, n - 1) : algorithms::MultiplePaths{p};
+                    bool good = p.size() == n && ps_.size() == 1 && ps_.front().size() == n;
+                    size_t k = 0;
+                    for (auto v : p) { if (v != k) good = false; ++k; }
+                    k = 0;
+                    if (ps_.size() == 1) for (auto v : ps_.front()) { if (v != k) good = false; ++k; }
+                    return std::string(good ? "ok" : "wrong") + " len=" + std::to_string(p.size()) + " paths=" + std::to_string(ps_.size());
+                };
+                out << "R " << guard([&] { return w[1] == "dir" ? run(DirectedGraph(n)) : run(UndirectedGraph(n)); }) << "\n";
+                ok = true;
             }
         } else if (verb == "tokenise" && w.size() == 2) {
             // io::findEdgeFromString on one line (hex), default separators
